@@ -106,7 +106,9 @@ def _takewhile_block(e):
 
 
 class TableAnalysis:
-    """path enumeration of the command loop body over (command letter, range present) with affine values"""
+    """path enumeration of the command loop body over (command letter, range present) on the affine interpreter: the parsed numbers
+    are symbolic integers F (and L), the command letter is the concrete letter of the case; tables keyed by letter codes, flags
+    and conditional expressions are evaluated, comparisons of F/L the path facts do not decide fork the path"""
 
     def __init__(self, f, loop, roles):
         self.f = f
@@ -115,14 +117,18 @@ class TableAnalysis:
         self.rows = []
 
     def run(self):
+        from .. import affinterp
         body = self.loop.body
-        # locate `match = patch_re.match(line)`, the no-match guard and the groups() unpacking
         idx = None
         for i, st in enumerate(body):
             if isinstance(st, ast.Assign) and isinstance(st.value, ast.Call) and isinstance(st.value.func, ast.Attribute) \
-                    and st.value.func.attr == 'groups' and isinstance(st.targets[0], ast.Tuple):
+                    and st.value.func.attr in ('groups', 'group') and isinstance(st.targets[0], ast.Tuple):
                 idx = i
                 names = [norm(t) for t in st.targets[0].elts]
+                if st.value.func.attr == 'group':
+                    order = [a_.value for a_ in st.value.args if isinstance(a_, ast.Constant)]
+                    if order != list(range(1, len(names) + 1)):
+                        raise AnalysisError('%s: the groups are not read in order: %s' % (self.f.site, norm(st.value)))
         if idx is None:
             raise AnalysisError('%s: no `(..) = match.groups()` in the command loop' % self.f.site)
         if len(names) != len(self.roles):
@@ -135,194 +141,148 @@ class TableAnalysis:
         mand = [r for r in self.roles if r['kind'] == 'num' and not r['optional']]
         if len(opt) != 1 or len(mand) != 1:
             raise AnalysisError('expected one mandatory and one optional numeric group')
+        ta = self
+        mod = self.f.module
+
+        class NumStr:
+            def __init__(self, var):
+                self.var = var
+
+        class TextBlock:
+            pass
+        TEXT = TextBlock()
+
+        class StreamFlag:
+            pass
+        FLAG = StreamFlag()
+
+        def consts(name):
+            v = mod.consts.get('', {}).get(name)
+            if v is None or isinstance(v, bool):
+                return None if v is None else (v,)
+
+            def conv(x):
+                if isinstance(x, dict):
+                    return {k: conv(y) for k, y in x.items()}
+                if isinstance(x, (list, tuple)):
+                    return tuple(conv(y) for y in x)
+                if isinstance(x, int) and not isinstance(x, bool):
+                    return Aff.const(x)
+                return x
+            return (conv(v),)
+
+        class It(affinterp.Interp):
+            def ev(self, e, env, facts):
+                if isinstance(e, ast.List) and not e.elts:
+                    return [((), facts)]
+                if _takewhile_block(e) is not None:
+                    return [(TEXT, facts)]
+                if isinstance(e, ast.Call) and isinstance(e.func, ast.Name):
+                    fn = e.func.id
+                    if fn in mod.funcs and text_block_function(mod.funcs[fn]) is not None:
+                        return [(TEXT, facts)]       # a helper that collects the text block (its loop is analysed by C18.R3)
+                    if fn == 'ord' and len(e.args) == 1:
+                        out = []
+                        for v, f2 in self.ev(e.args[0], env, facts):
+                            if isinstance(v, (str, bytes)) and len(v) == 1:
+                                out.append((Aff.const(ord(v)), f2))
+                            else:
+                                raise AnalysisError('ord() of %r' % (v,))
+                        return out
+                    if fn == 'int' and len(e.args) == 1:
+                        out = []
+                        for v, f2 in self.ev(e.args[0], env, facts):
+                            if isinstance(v, NumStr):
+                                out.append((Aff.var(v.var), f2))
+                            elif isinstance(v, Aff):
+                                out.append((v, f2))
+                            else:
+                                raise AnalysisError('int() of %r' % (v,))
+                        return out
+                return affinterp.Interp.ev(self, e, env, facts)
+
+            def cmp(self, l, op, r, facts, node=None):
+                # the command letter compares equal to its str and bytes spelling alike (the code uses ord() for that reason)
+                if isinstance(l, str) and isinstance(r, bytes):
+                    r = r.decode('latin-1')
+                if isinstance(r, tuple) and isinstance(l, str):
+                    r = tuple(x.decode('latin-1') if isinstance(x, bytes) else x for x in r)
+                if (r is TEXT or l is TEXT) and isinstance(op, (ast.In, ast.NotIn, ast.Eq, ast.NotEq)):
+                    return [(True, facts), (False, facts)]       # what the collected text contains is not part of the command table
+                if isinstance(l, NumStr) or isinstance(r, NumStr):
+                    if isinstance(op, (ast.Is, ast.IsNot)) and (l is None or r is None):
+                        return [(isinstance(op, ast.IsNot), facts)]
+                    raise AnalysisError('%s: a parsed number is compared as text: %s' % (ta.f.site, norm(node) if node is not None else ''))
+                return affinterp.Interp.cmp(self, l, op, r, facts, node)
+
+            def cond(self, t, env, facts):
+                if isinstance(t, ast.Name) and isinstance(env.get(t.id), NumStr):
+                    return [(True, facts)]           # a participating numeric group is a non-empty string
+                return affinterp.Interp.cond(self, t, env, facts)
+
+            def step(self, st, env, facts):
+                if isinstance(st, ast.If) and any(isinstance(n_, ast.Name) and env.get(n_.id) is FLAG for n_ in ast.walk(st.test)):
+                    # a test on how the text-block loop ended: both outcomes, decided by C18.R3
+                    out = []
+                    for branch in (st.body, st.orelse):
+                        e2 = dict(env)
+                        e2['$stream'] = True
+                        out += self.run(list(branch), e2, facts)
+                    return out
+                if isinstance(st, ast.Continue):
+                    return [affinterp.Outcome('continue', None, env, facts, st.lineno)]
+                if isinstance(st, ast.Expr) and isinstance(st.value, ast.Yield):
+                    out = []
+                    for v, f2 in self.ev(st.value.value, env, facts):
+                        ta.rows.append(dict(key=self.key, kind='yield', value=v, facts=f2, line=st.lineno))
+                        out.append(affinterp.Outcome('fall', None, env, f2, None))
+                    return out
+                if isinstance(st, ast.For):
+                    env = dict(env)
+                    tgt = [c for c in ast.walk(st) if isinstance(c, ast.Call) and isinstance(c.func, ast.Attribute) and c.func.attr == 'append']
+                    if len(tgt) != 1 or not isinstance(tgt[0].func.value, ast.Name):
+                        raise AnalysisError('%s: text-block loop has no single append' % ta.f.site)
+                    lst = tgt[0].func.value.id
+                    if env.get(lst) != ():
+                        raise AnalysisError('%s: text-block list %s is not initialised to []' % (ta.f.site, lst))
+                    if norm(tgt[0].args[0]) != norm(st.target):
+                        raise AnalysisError('%s: the text-block loop does not collect its own lines' % ta.f.site)
+                    env[lst] = TEXT
+                    for n_ in ast.walk(st):
+                        if isinstance(n_, ast.Assign):
+                            for t_ in n_.targets:
+                                if isinstance(t_, ast.Name) and t_.id != lst:
+                                    env[t_.id] = FLAG
+                    return [affinterp.Outcome('fall', None, env, facts, None)]
+                outs = affinterp.Interp.step(self, st, env, facts)
+                for o in outs:
+                    if o.kind == 'raise':
+                        ta.rows.append(dict(key=self.key, kind='raise', exc=o.value, facts=o.facts, line=o.line, stream=bool(o.env.get('$stream'))))
+                return outs
+        self.TEXT = TEXT
         for letter in cmd_role[0]['letters']:
             for has_range in (False, True):
                 env = {}
                 for nm, role in zip(names, self.roles):
                     if role['kind'] == 'cmd':
-                        env[nm] = ('char', letter)
+                        env[nm] = letter
                     elif role['optional']:
-                        env[nm] = ('numstr', 'L') if has_range else None
+                        env[nm] = NumStr('L') if has_range else None
                     else:
-                        env[nm] = ('numstr', 'F')
-                facts = Facts([Aff.var('F'), Aff.var('L')] if has_range else [Aff.var('F')])
-                self.explore(rest, env, facts, (letter, has_range))
+                        env[nm] = NumStr('F')
+                it = It(self.f.site, consts)
+                it.key = (letter, has_range)
+                # raise rows are recorded where the raise statement is executed; nested runs report them once
+                seen = len(self.rows)
+                it.run(rest, env, Facts([Aff.var('F'), Aff.var('L')] if has_range else [Aff.var('F')]))
+                uniq, out_rows = set(), []
+                for r in self.rows[seen:]:
+                    k = (r['kind'], r['line'], repr(r['facts']), repr(r.get('value')))
+                    if k not in uniq:
+                        uniq.add(k)
+                        out_rows.append(r)
+                self.rows[seen:] = out_rows
         return self.rows
-
-    # -- values
-    def ev(self, e, env, facts):
-        if isinstance(e, ast.Constant):
-            if isinstance(e.value, bool) or e.value is None:
-                return e.value
-            if isinstance(e.value, int):
-                return Aff.const(e.value)
-            if isinstance(e.value, (str, bytes)):
-                return ('const', e.value)
-        if isinstance(e, ast.Name):
-            if e.id in env:
-                return env[e.id]
-            cv = self.f.module.consts.get('', {}).get(e.id)
-            if isinstance(cv, int) and not isinstance(cv, bool):
-                return Aff.const(cv)
-            if isinstance(cv, (str, bytes)):
-                return ('const', cv)
-            if isinstance(cv, (tuple, list)) and all(isinstance(x, (str, bytes)) for x in cv):
-                return ('tuple', [('const', x) for x in cv])
-            raise AnalysisError('%s: name %s outside the modelled environment' % (self.f.site, e.id))
-        if isinstance(e, ast.Call) and isinstance(e.func, ast.Name) and e.func.id in self.f.module.funcs and text_block_function(self.f.module.funcs[e.func.id]) is not None:
-            # a helper that collects the lines of the text block from the stream (its loop is analysed by C18.R3)
-            return ('textblock', True)
-        tw = _takewhile_block(e)
-        if tw is not None:
-            # the text block collected with itertools.takewhile (how it ends is decided by C18.R3)
-            return ('textblock', True)
-        if isinstance(e, ast.Call) and norm(e.func) == 'int' and len(e.args) == 1:
-            v = self.ev(e.args[0], env, facts)
-            if isinstance(v, tuple) and v[0] == 'numstr':
-                return Aff.var(v[1])
-            raise AnalysisError('int() of %r' % (v,))
-        if isinstance(e, ast.Call) and norm(e.func) == 'ord' and len(e.args) == 1:
-            v = self.ev(e.args[0], env, facts)
-            if isinstance(v, tuple) and v[0] == 'char':
-                return Aff.const(ord(v[1]))
-            raise AnalysisError('ord() of %r' % (v,))
-        if isinstance(e, ast.BinOp) and isinstance(e.op, (ast.Add, ast.Sub)):
-            l, r = self.ev(e.left, env, facts), self.ev(e.right, env, facts)
-            if isinstance(l, Aff) and isinstance(r, Aff):
-                return l + r if isinstance(e.op, ast.Add) else l - r
-        if isinstance(e, ast.IfExp):
-            outs = self.cond(e.test, env, facts)
-            if len(outs) == 1:
-                return self.ev(e.body if outs[0][0] else e.orelse, env, facts)
-            raise AnalysisError('conditional expression on an undecided condition: %s' % norm(e))
-        if isinstance(e, ast.List) and not e.elts:
-            return ('emptylist',)
-        if isinstance(e, ast.Tuple):
-            return ('tuple', [self.ev(x, env, facts) for x in e.elts])
-        raise AnalysisError('%s: expression outside the table vocabulary: %s' % (self.f.site, norm(e)[:50]))
-
-    def cond(self, t, env, facts):
-        """[(truth, facts)] possible outcomes"""
-        if isinstance(t, ast.BoolOp):
-            outs = [(None, facts)]
-            isand = isinstance(t.op, ast.And)
-            res = []
-            pending = [(facts,)]
-            # short-circuit evaluation with forking
-            def rec(i, fx):
-                if i == len(t.values):
-                    res.append((isand, fx))
-                    return
-                for truth, f2 in self.cond(t.values[i], env, fx):
-                    if truth != isand:
-                        res.append((truth, f2))
-                    else:
-                        rec(i + 1, f2)
-            rec(0, facts)
-            _ = outs, pending
-            return res
-        if isinstance(t, ast.UnaryOp) and isinstance(t.op, ast.Not):
-            return [(not a, f) for a, f in self.cond(t.operand, env, facts)]
-        if isinstance(t, ast.Compare) and len(t.ops) == 1:
-            op = t.ops[0]
-            l = self.ev(t.left, env, facts)
-            r = self.ev(t.comparators[0], env, facts)
-            if isinstance(op, (ast.Is, ast.IsNot)):
-                if r is None:
-                    res = l is None
-                    return [(res if isinstance(op, ast.Is) else not res, facts)]
-            if isinstance(l, tuple) and l[0] == 'char':
-                if isinstance(op, (ast.Eq, ast.NotEq)) and isinstance(r, tuple) and r[0] == 'const':
-                    res = r[1] in (l[1], l[1].encode())
-                    return [(res if isinstance(op, ast.Eq) else not res, facts)]
-                if isinstance(op, (ast.In, ast.NotIn)) and isinstance(r, tuple) and r[0] == 'tuple':
-                    res = any(isinstance(x, tuple) and x[0] == 'const' and x[1] in (l[1], l[1].encode()) for x in r[1])
-                    return [(res if isinstance(op, ast.In) else not res, facts)]
-            if isinstance(l, Aff) and isinstance(r, Aff):
-                if isinstance(op, ast.NotEq):
-                    return [(not a, f) for a, f in self._cmp(l, ast.Eq(), r, facts)]
-                return self._cmp(l, op, r, facts)
-        raise AnalysisError('%s: condition outside the table vocabulary: %s' % (self.f.site, norm(t)[:60]))
-
-    def _cmp(self, l, op, r, facts):
-        cs = cmp_to_constraints(l, op, r)
-        if cs is None:
-            raise AnalysisError('comparison operator not supported')
-        d = (l - r)
-        if d.is_const():
-            k = d.k
-            res = {ast.Lt: k < 0, ast.LtE: k <= 0, ast.Gt: k > 0, ast.GtE: k >= 0, ast.Eq: k == 0}[type(op)]
-            return [(res, facts)]
-        if all(facts.entails(c) for c in cs):
-            return [(True, facts)]
-        if any(facts.contradicts(c) for c in cs):
-            return [(False, facts)]
-        out = []
-        ft = facts
-        for c in cs:
-            ft = ft.add(c)
-        out.append((True, ft))
-        if len(cs) == 1:
-            out.append((False, facts.add((-cs[0]) - 1)))
-        else:
-            # not (a == b): a < b or a > b
-            out.append((False, facts.add((-cs[0]) - 1)))
-            out.append((False, facts.add((-cs[1]) - 1)))
-        return [(t, f) for t, f in out if not f.inconsistent()]
-
-    def explore(self, stmts, env, facts, key):
-        for i, st in enumerate(stmts):
-            if isinstance(st, ast.Expr) and isinstance(st.value, ast.Constant):
-                continue
-            if isinstance(st, ast.Assign) and len(st.targets) == 1 and isinstance(st.targets[0], ast.Name):
-                env = dict(env)
-                env[st.targets[0].id] = self.ev(st.value, env, facts)
-                continue
-            if isinstance(st, ast.AugAssign) and isinstance(st.target, ast.Name) and isinstance(st.op, (ast.Add, ast.Sub)):
-                env = dict(env)
-                cur, d = self.ev(st.target, env, facts), self.ev(st.value, env, facts)
-                if not (isinstance(cur, Aff) and isinstance(d, Aff)):
-                    raise AnalysisError('%s: augmented assignment on non-integers: %s' % (self.f.site, norm(st)))
-                env[st.target.id] = cur + d if isinstance(st.op, ast.Add) else cur - d
-                continue
-            if isinstance(st, ast.If) and any(isinstance(n_, ast.Name) and env.get(n_.id) == ('streamflag',) for n_ in ast.walk(st.test)):
-                # a test on state of the text-block loop (how the stream ended): both outcomes, decided by C18.R3
-                for branch in (st.body, st.orelse):
-                    e2 = dict(env)
-                    e2['$stream'] = True
-                    self.explore(list(branch) + list(stmts[i + 1:]), e2, facts, key)
-                return
-            if isinstance(st, ast.If):
-                for truth, f2 in self.cond(st.test, env, facts):
-                    self.explore(list(st.body if truth else st.orelse) + list(stmts[i + 1:]), dict(env), f2, key)
-                return
-            if isinstance(st, ast.Raise):
-                exc = norm(st.exc.func) if isinstance(st.exc, ast.Call) else norm(st.exc)
-                self.rows.append(dict(key=key, kind='raise', exc=exc, facts=facts, line=st.lineno, stream=bool(env.get('$stream'))))
-                return
-            if isinstance(st, ast.Continue):
-                return
-            if isinstance(st, ast.Expr) and isinstance(st.value, ast.Yield):
-                v = self.ev(st.value.value, env, facts)
-                self.rows.append(dict(key=key, kind='yield', value=v, facts=facts, line=st.lineno))
-                continue
-            if isinstance(st, ast.For):
-                # the text block: `for c in i: ... lines.append(c)`
-                env = dict(env)
-                tgt = [c for c in ast.walk(st) if isinstance(c, ast.Call) and isinstance(c.func, ast.Attribute) and c.func.attr == 'append']
-                if len(tgt) != 1 or not isinstance(tgt[0].func.value, ast.Name):
-                    raise AnalysisError('%s: text-block loop has no single append' % self.f.site)
-                lst = tgt[0].func.value.id
-                if env.get(lst) != ('emptylist',):
-                    raise AnalysisError('%s: text-block list %s is not initialised to []' % (self.f.site, lst))
-                env[lst] = ('textblock', norm(tgt[0].args[0]) == norm(st.target))
-                for n_ in ast.walk(st):
-                    if isinstance(n_, ast.Assign):
-                        for t_ in n_.targets:
-                            if isinstance(t_, ast.Name) and t_.id != lst:
-                                env[t_.id] = ('streamflag',)
-                continue
-            raise AnalysisError('%s: statement outside the table vocabulary: %s' % (self.f.site, norm(st)[:60]))
 
 
 def expected(key):
@@ -378,13 +338,13 @@ def r2_r4_table(rep, src, roles):
             continue
         for r in yields:
             v = r['value']
-            okshape = isinstance(v, tuple) and v[0] == 'tuple' and len(v[1]) == 3 and isinstance(v[1][0], Aff) and isinstance(v[1][1], Aff)
+            okshape = isinstance(v, tuple) and len(v) == 3 and isinstance(v[0], Aff) and isinstance(v[1], Aff)
             if not okshape:
                 rep.fail('C18.R2', f.site, label, 'yield of %r is not a (first, last, lines) triple of integers' % (v,),
                          where='%s:%d' % (f.module.relpath, r['line']))
                 continue
-            a, b, third = v[1]
-            third_kind = 'empty' if third == ('emptylist',) else 'text' if (isinstance(third, tuple) and third[0] == 'textblock' and third[1]) else 'other'
+            a, b, third = v
+            third_kind = 'empty' if third == () else 'text' if third is ta.TEXT else 'other'
             if (a, b) == (exp[0], exp[1]) and third_kind == exp[2]:
                 rep.ok('C18.R2', f.site, label, 'yields (%r, %r, %s) under %r' % (a, b, third_kind, r['facts']))
             else:
